@@ -90,6 +90,10 @@ def adaptWrapMaxLines (arg : Str) : Res Nat :=
 def configMaxLineLength (maxLines maxLineLength availableTerminalWidth : Nat) : Res Nat :=
   evalArms [maxLines, maxLineLength, availableTerminalWidth] configMaxLineLengthArms
 
+/-- the width `Config::from` hands to `config_max_line_length` -/
+def maxLineLengthWidthArg (w : Option Nat) (tw : Nat) : Nat :=
+  if maxLineLengthUsesViewWidth then (match w with | some n => n | none => tw) else tw
+
 /-! ### `--width` -/
 
 /-- `char::is_whitespace` -/
@@ -171,6 +175,10 @@ inductive Width where
   | fixed (w : Nat)
   | variable
   deriving DecidableEq, Repr
+
+def Width.fixed? : Width → Option Nat
+  | .fixed n => some n
+  | .variable => none
 
 /-- `set_widths_and_isatty`: `opt.computed.decorations_width` -/
 def setWidths (width : Option Str) (tw : Nat) : Res Width :=
@@ -270,7 +278,7 @@ def startup (o : Opts) (tw : Nat) : Res Cfg :=
             match sbsOddFix w o.ansiFill p0 with
             | .error e => .error e
             | .ok p =>
-              match (if o.sideBySide then configMaxLineLength ml o.maxLineLength tw else .ok o.maxLineLength) with
+              match (if o.sideBySide then configMaxLineLength ml o.maxLineLength (maxLineLengthWidthArg w.fixed? tw) else .ok o.maxLineLength) with
               | .error e => .error e
               | .ok mll =>
                 match tabCfgNew o.tabs with
